@@ -892,6 +892,17 @@ func (c *Ctx) c10Requests(g *c10Gen) {
 			case 4:
 				kind = "foreign-tag"
 				resp = g.r.Bytes(4 + g.r.Intn(16))
+				if i >= 6 || g.r.Bool() {
+					// a complete, valid result body under a constructor id that is not the result's
+					kind = "foreign-tag-valid-body"
+					rv := reflect.New(m.res).Elem()
+					g.fill(rv, 0)
+					if cv, _, ok := c10Canon(rv); ok {
+						rv = cv
+					}
+					body, _ := tl.Marshal(rv.Interface())
+					resp = append(c10ForeignID(c10ResultID(m), g.r), body...)
+				}
 			default:
 				kind = "short"
 				rv := reflect.New(m.res).Elem()
@@ -1005,6 +1016,7 @@ func genC10(c *Ctx) {
 	c.c10HandCodecs()
 	c.c10Framing()
 	c.c10Words()
+	c.c10Truncations()
 	c.c10Vectors()
 	per := c.Scale(8, 60)
 	for _, n := range c10Names {
@@ -1063,6 +1075,9 @@ func genC10(c *Ctx) {
 			c.c10Emit("c10.reqdecode", sx.Bytes(msg), "reqdecode|valid")
 			if len(msg) > 4 && i == 0 {
 				c.c10Emit("c10.reqdecode", sx.Bytes(msg[:4+c.R.Intn(len(msg)-4)]), "reqdecode|truncated")
+			}
+			if i == 1 {
+				c.c10Emit("c10.reqdecode", sx.Bytes(append(c10ForeignID(id, c.R), body...)), "reqdecode|foreign-id")
 			}
 		}
 	}
@@ -1838,6 +1853,27 @@ func (c *Ctx) c10Framing() {
 		}
 		c.c10Emit("c10.wait", sx.L(sx.A(which), sx.N(seqno), sx.N(tmo), sx.Bytes(resp)), "framing|wait|"+which+"|"+kind)
 	}
+	// the hand-written answer dispatch: complete, valid bodies under every kind of foreign constructor id
+	for i := 0; i < c.Scale(16, 80); i++ {
+		hv := reflect.New(reflect.TypeOf(liteclient.LiteServerBlockHeaderC{})).Elem()
+		(&c10Gen{r: c.R, big: 10, maxV: 2}).fill(hv, 0)
+		hb, _ := tl.Marshal(hv.Interface())
+		eb, _ := tl.Marshal(liteclient.LiteServerErrorC{Code: uint32(c.R.Intn(3)), Message: "x"})
+		for _, which := range []string{"seqno", "block"} {
+			for k, body := range [][]byte{hb, eb} {
+				own := []byte{0x19, 0x82, 0x2d, 0x75}
+				if k == 1 {
+					own = []byte{0x48, 0xe1, 0xa9, 0xbb}
+				}
+				resp := append(c10ForeignID(own, c.R), body...)
+				in := sx.L(sx.A(which), sx.N(uint64(i)), sx.N(1000), sx.Bytes(resp))
+				out := c.c10Emit("c10.wait", in, "framing|wait|"+which+"|foreign-id-valid-body")
+				if out.K == sx.KL && len(out.List) == 2 && !out.List[1].IsA("err") {
+					c.Fail("c10.wait", in, "c10-wait-dispatch", fmt.Sprintf("WaitMasterchain%s accepts an answer under the foreign constructor id %x", which, resp[:4]))
+				}
+			}
+		}
+	}
 }
 
 // ---------------------------------------------------------------- foreign words at every word position
@@ -1975,5 +2011,156 @@ func (c *Ctx) c10Words() {
 				c.c10Emit("c10.request", sx.L(sx.A(m.name), c10ToSx(rq), sx.Bytes(c10PutWord(resp, 4*w, x))), "words|response")
 			}
 		}
+	}
+}
+
+// a constructor id that is not id: another id of the schema, a neighbour, the byte-swapped id, ...
+func c10ForeignID(id []byte, r *prng.R) []byte {
+	for {
+		var f []byte
+		switch r.Intn(5) {
+		case 0:
+			all := c10SchemaIDs()
+			if len(all) > 0 {
+				f = append([]byte{}, all[r.Intn(len(all))]...)
+			}
+		case 1:
+			f = []byte{id[3], id[2], id[1], id[0]}
+		case 2:
+			f = append([]byte{}, id...)
+			f[r.Intn(4)] ^= 1 << r.Intn(8)
+		case 3:
+			f = []byte{0, 0, 0, 0}
+		default:
+			f = r.Bytes(4)
+		}
+		// neither the id itself nor liteServer.error (a legitimate other answer)
+		if len(f) == 4 && !bytes.Equal(f, id) && !bytes.Equal(f, []byte{0x48, 0xe1, 0xa9, 0xbb}) {
+			return f
+		}
+	}
+}
+
+// ---------------------------------------------------------------- truncated inputs
+
+// every proper prefix of a valid encoding must be rejected (the reader is sequential
+// and needs every byte); cut points cover the header, the internal thresholds and every
+// multiple of 4 inside the data of the last field
+func (c *Ctx) c10Truncations() {
+	emit := func(kind string, mk func(b []byte) sx.V, b []byte, cuts []int, class string, reject func(b []byte) bool) {
+		seen := map[int]bool{}
+		for _, cut := range cuts {
+			if cut < 0 || cut >= len(b) || seen[cut] {
+				continue
+			}
+			seen[cut] = true
+			in := mk(b[:cut])
+			c.c10Emit(kind, in, class)
+			if !reject(b[:cut]) {
+				c.Fail(kind, sx.L(sx.A(class), sx.Nat(len(b)), sx.Nat(cut)), "c10-truncated", fmt.Sprintf("%s: an encoding of %d bytes cut after %d bytes is accepted", class, len(b), cut))
+			}
+		}
+	}
+	cutsFor := func(n int, dense bool) []int {
+		cs := []int{0, 1, 2, 3, 4, 5, 6, 7, 8, n - 1, n - 2, n - 3, n - 4, n - 5, n - 8}
+		for _, t := range []int{256, 1024, 4092, 4096, 4100, 4104, 8192, 8196} {
+			for d := -4; d <= 4; d++ {
+				cs = append(cs, t+d)
+			}
+		}
+		step := 4
+		if !dense {
+			step = 4 * (1 + n/160)
+		}
+		for x := 8; x < n; x += step {
+			cs = append(cs, x)
+		}
+		for i := 0; i < 12; i++ {
+			cs = append(cs, c.R.Intn(n+1))
+		}
+		return cs
+	}
+	// byte strings on both sides of readN's threshold, as the last thing read
+	st := reflect.TypeOf(liteclient.LiteServerSendMessageRequest{})
+	for _, n := range []int{0, 1, 3, 253, 254, 255, 1000, 4092, 4095, 4096, 4097, 4100, 5000, 8192, 8193} {
+		if !c.Thorough() && (n == 1000 || n == 4092 || n == 8192) {
+			continue
+		}
+		body := c.R.Bytes(n)
+		b, _ := tl.Marshal(liteclient.LiteServerSendMessageRequest{Body: body})
+		bucket := "below-4096"
+		if n > 4096 {
+			bucket = "above-4096"
+		}
+		emit("c10.unmarshal", func(p []byte) sx.V { return c10Case(st.Name(), sx.Bytes(p)) }, b, cutsFor(len(b), c.Thorough()),
+			"truncated|bytes-field|"+bucket, func(p []byte) bool {
+				var v liteclient.LiteServerSendMessageRequest
+				return tl.Unmarshal(bytes.NewReader(p), &v) != nil
+			})
+		if n >= 4096 || n == 254 {
+			emit("c10.bunmarshal", func(p []byte) sx.V { return sx.L(sx.A("bytes"), sx.Bytes(p)) }, c10RefBytes(body), cutsFor(len(b), false),
+				"truncated|bytes|"+bucket, func(p []byte) bool {
+					var v []byte
+					return tl.Unmarshal(bytes.NewReader(p), &v) != nil
+				})
+			e, _ := tl.Marshal(liteclient.LiteServerErrorC{Code: 7, Message: string(body)})
+			emit("c10.unmarshal", func(p []byte) sx.V { return c10Case("LiteServerErrorC", sx.Bytes(p)) }, e, cutsFor(len(e), false),
+				"truncated|string-field|"+bucket, func(p []byte) bool {
+					var v liteclient.LiteServerErrorC
+					return tl.Unmarshal(bytes.NewReader(p), &v) != nil
+				})
+		}
+	}
+	// vectors on both sides of the pre-allocation cap
+	for _, n := range []int{2, 4095, 4096, 4097, 4100, 8193} {
+		if !c.Thorough() && n == 8193 {
+			continue
+		}
+		xs := make([]uint32, n)
+		for i := range xs {
+			xs[i] = uint32(c.R.U64())
+		}
+		b, _ := tl.Marshal(xs)
+		bucket := "below-4096"
+		if n > 4096 {
+			bucket = "above-4096"
+		}
+		emit("c10.bunmarshal", func(p []byte) sx.V { return sx.L(c10Vec(sx.A("u32")), sx.Bytes(p)) }, b, cutsFor(len(b), false),
+			"truncated|vector|"+bucket, func(p []byte) bool {
+				var v []uint32
+				return tl.Unmarshal(bytes.NewReader(p), &v) != nil
+			})
+		rq, _ := tl.Marshal(liteclient.LiteServerGetConfigParamsRequest{Mode: 1, ParamList: xs})
+		emit("c10.unmarshal", func(p []byte) sx.V { return c10Case("LiteServerGetConfigParamsRequest", sx.Bytes(p)) }, rq, cutsFor(len(rq), false),
+			"truncated|vector-field|"+bucket, func(p []byte) bool {
+				var v liteclient.LiteServerGetConfigParamsRequest
+				return tl.Unmarshal(bytes.NewReader(p), &v) != nil
+			})
+	}
+	// every type: proper prefixes of a small valid encoding
+	for _, n := range c10Names {
+		t := c10Types[n]
+		v := reflect.New(t).Elem()
+		(&c10Gen{r: c.R, big: 10, maxV: 3}).fill(v, 0)
+		_, b, ok := c10Canon(v)
+		if !ok || len(b) == 0 {
+			continue
+		}
+		var cuts []int
+		if c.Thorough() && len(b) <= 400 {
+			for x := 0; x < len(b); x++ {
+				cuts = append(cuts, x)
+			}
+		} else {
+			cuts = []int{0, 1, 3, 4, len(b) - 1, len(b) - 4, len(b) - 8}
+			for i := 0; i < 6; i++ {
+				cuts = append(cuts, c.R.Intn(len(b))&^3, c.R.Intn(len(b)))
+			}
+		}
+		name := n
+		emit("c10.unmarshal", func(p []byte) sx.V { return c10Case(name, sx.Bytes(p)) }, b, cuts,
+			"truncated|"+c10Category(t), func(p []byte) bool {
+				return tl.Unmarshal(bytes.NewReader(p), reflect.New(t).Interface()) != nil
+			})
 	}
 }
